@@ -99,6 +99,17 @@ func c14Concretise(cs c14Case) (qs []c14Q, ask []int) {
 		}
 	case "rangeShortSame":
 		qs = []c14Q{{Kind: "range", Expr: "count(up)", Lookback: 3600, Step: 60}}
+	case "rangeMulti": // 2- and 3-slice range queries, each asked by several callers one after the other (the lock serialises them)
+		nq := cs.K / 4
+		if nq < 1 {
+			nq = 1
+		}
+		if nq > 4 {
+			nq = 4
+		}
+		for i := 0; i < nq; i++ {
+			qs = append(qs, c14Q{Kind: "range", Expr: fmt.Sprintf("count(multi_%d)", i), Lookback: (2 + i%2) * 3600, Step: 300})
+		}
 	case "rangeTwin":
 		qs = []c14Q{rg("count(up)", 8), rg("count(up)", 6)}
 	case "rangeDisjoint":
@@ -141,6 +152,10 @@ func c14Plan(cs c14Case) func(e promsrv.Entry, form url.Values) promsrv.Action {
 			act.Latency = time.Duration(h>>20%2000) * time.Microsecond
 		case "long":
 			act.Latency = 3*time.Millisecond + time.Duration(h>>20%7000)*time.Microsecond
+		}
+		if cs.Mix == "rangeMulti" && strings.HasSuffix(e.Path, "/query_range") && c14Secs(e.Form["start"])/7200%2 == 1 {
+			// the small (single-series) slices answer a little later than the big ones
+			act.Latency += 3 * time.Millisecond
 		}
 		switch cs.Fault {
 		case "first":
